@@ -18,7 +18,7 @@ func init() {
 		ID: "C06", Level: "exploration", PanicClause: "C06.panic",
 		Cases: func(tier string) int {
 			if tier == "quick" {
-				return 12000
+				return 24000
 			}
 			return 900000
 		},
